@@ -174,7 +174,8 @@ pub fn decode_case(data: &[u8], fam: Family) -> Case {
             cfg.up_infinite = subj != Subj::FE && b(u) % 24 == 0;
         }
         Subj::JA | Subj::TJA => {
-            cfg.ctor = if b(u) % 3 == 0 { 3 } else { 2 };
+            cfg.ctor = [2u8, 2, 3, 4][b(u) as usize % 4];
+            cfg.inexact_iter = b(u) % 4 == 0;
             let n = b(u) % 24;
             for _ in 0..n {
                 let mut p = plan(u, false, can_fail);
